@@ -401,7 +401,13 @@ def check_model(out, c, tmp):
         lic = 2.0 * float(np.sum((Rp_ + z_) * dz_)) * math.exp(-10.0) / (Rs_ * Rs_)
     else:
         lic = math.exp(-10.0) * float(np.max(np.abs(spec)))
-    if not close(np.asarray(res2[1], dtype=float), spec, rtol=1e-10, atol=lic + 1e-300):
+    if not np.all(np.isfinite(spec)) or not math.isfinite(lic):
+        # the drawn temperatures unbind this (small, cold-built) planet's atmosphere: altitudes overflow and the spectrum
+        # is NaN before and after the reload -- nothing numeric to compare
+        out.cls('non-finite-spectrum')
+        if not np.array_equal(np.isfinite(np.asarray(res2[1], dtype=float)), np.isfinite(spec)):
+            out.fail('reload-spectrum@%s,%s,finiteness' % (c['family'], c['temp']), 'finite values became non-finite (or back) on reload')
+    elif not close(np.asarray(res2[1], dtype=float), spec, rtol=1e-10, atol=lic + 1e-300):
         out.fail('reload-spectrum@%s,%s' % (c['family'], c['temp']), 'reloaded model gives a different spectrum (max rel %.2e)' % maxrel(res2[1], spec))
     return bool(nondefault >= 2)
 
